@@ -60,3 +60,32 @@ pub open spec fn missing_msgs(tn: Seq<char>, order: Seq<Seq<char>>, done: Set<Se
     else if done.contains(order[n - 1]) { missing_msgs(tn, order, done, n - 1) }
     else { missing_msgs(tn, order, done, n - 1).push(missing_text(tn, order[n - 1])) }
 }
+
+// ---- second fragment: Typer::check_pat, "unknown fields" of a struct pattern ----
+#[verifier::external_body] pub struct PatId { _p: u64 }
+// std::collections::HashMap<String, V>: key set only; the ORDER keys() yields is unspecified (hash order)
+#[verifier::external_body]
+#[verifier::reject_recursive_types(K)]
+#[verifier::reject_recursive_types(V)]
+pub struct HashMap<K, V> { _k: core::marker::PhantomData<(K, V)> }
+impl<V> HashMap<String, V> {
+    pub uninterp spec fn key_set(&self) -> Set<Seq<char>>;
+    #[verifier::external_body] pub fn is_empty(&self) -> (r: bool) ensures r == (self.key_set() =~= Set::<Seq<char>>::empty()) { unimplemented!() }
+    // `m.keys().cloned().collect::<Vec<_>>()`
+    #[verifier::external_body]
+    pub fn keys_vec(&self) -> (r: Vec<String>) ensures views(r@).no_duplicates(), views(r@).to_set() == self.key_set() { unimplemented!() }
+}
+// `<[String]>::sort`: on a duplicate-free vector the result is THE sorted sequence of its element set (a function of the contents)
+#[verifier::external_body]
+pub fn sort_strs(v: &mut Vec<String>)
+    requires views(old(v)@).no_duplicates(),
+    ensures views(final(v)@) == canonical(views(old(v)@).to_set()), views(final(v)@).no_duplicates(),
+{ unimplemented!() }
+pub uninterp spec fn join_text(parts: Seq<Seq<char>>, sep: Seq<char>) -> Seq<char>;
+#[verifier::external_body]
+pub fn join_strs(v: &Vec<String>, sep: &str) -> (r: String) ensures r@ == join_text(views(v@), sep@) { unimplemented!() }
+pub uninterp spec fn unknown_text(name: Seq<char>, extra: Seq<char>) -> Seq<char>;
+#[verifier::external_body]
+pub fn fmt_unknown(name: &String, extra: &String) -> (r: String) ensures r@ == unknown_text(name@, extra@) { unimplemented!() }
+#[verifier::external_body]
+pub fn push_error(diagnostics: &mut Diagnostics, message: String) ensures final(diagnostics)@ == old(diagnostics)@.push(message@) { unimplemented!() }
